@@ -9,7 +9,7 @@ using namespace pcv;
 
 namespace {
 
-std::string classify(const calculator::error& e)
+std::string classify(const std::exception& e)
 {
   const char* m = e.what();
   if (std::strstr(m, "Syntax error")) return "ERR:calc:syntax";
@@ -17,6 +17,14 @@ std::string classify(const calculator::error& e)
   if (std::strstr(m, "integer overflow")) return "ERR:calc:overflow";
   if (std::strstr(m, "negative exponent")) return "ERR:calc:negexp";
   return "ERR:calc:other";
+}
+
+// error signal of the internal `to_maxint`: the calculator's diagnostics keep their kind whether they arrive as
+// calculator::error (before the repair F7) or as primecount_error carrying the same message (after it)
+std::string classify_pc(const primecount::primecount_error& e)
+{
+  std::string k = classify(e);
+  return k == "ERR:calc:other" ? "ERR:pc" : k;
 }
 
 } // namespace
@@ -27,7 +35,7 @@ PCV_OP(toi)
   std::string s = unhex(a.at(0));
   try { return i128s(primecount::to_maxint(s)); }
   catch (const calculator::error& e) { return classify(e); }
-  catch (const primecount::primecount_error&) { return "ERR:pc"; }
+  catch (const primecount::primecount_error& e) { return classify_pc(e); }
 }
 
 // same call, every documented error signal collapsed to ERR (compared with the reference parser)
@@ -40,17 +48,21 @@ PCV_OP(toiref)
 }
 
 // pistr <hex>: primecount::pi(const std::string&) when the value is small (guard: the value is first
-// obtained with to_maxint so that the harness never starts a huge computation); BIG otherwise
+// obtained with to_maxint so that the harness never starts a huge computation); BIG otherwise.
+// primecount.hpp documents "Throws a primecount_error if an error occurs": any OTHER exception type that leaves the
+// public function is reported as ERR:escaped:<kind> (never produced by the model).
 PCV_OP(pistr)
 {
   std::string s = unhex(a.at(0));
   try {
     int128_t v = primecount::to_maxint(s);
     if (v > 300000) return "BIG";
-    return primecount::pi(s);
   }
-  catch (const calculator::error& e) { return classify(e); }
-  catch (const primecount::primecount_error&) { return "ERR:pc"; }
+  catch (const std::exception&) { }
+  try { return primecount::pi(s); }
+  catch (const primecount::primecount_error& e) { return classify_pc(e); }
+  catch (const calculator::error& e) { return "ERR:escaped:" + classify(e).substr(4); }
+  catch (const std::exception& e) { return "ERR:escaped:other"; }
 }
 
 // same call as `toi`; compared with the wrap-around model of the UNREPAIRED calculator (stream `toiwrap`,
@@ -60,5 +72,5 @@ PCV_OP(toiwrap)
   std::string s = unhex(a.at(0));
   try { return i128s(primecount::to_maxint(s)); }
   catch (const calculator::error& e) { return classify(e); }
-  catch (const primecount::primecount_error&) { return "ERR:pc"; }
+  catch (const primecount::primecount_error& e) { return classify_pc(e); }
 }
